@@ -145,7 +145,15 @@ func (g *Generator) AdjustEnv(env []*nri.KeyValue) {
 	mod := map[string]*nri.KeyValue{}
 
 	for _, e := range env {
-		key, _ := nri.IsMarkedForRemoval(e.Key)
+		key, marked := nri.IsMarkedForRemoval(e.Key)
+		if marked {
+			// a set wins over a removal of the same variable, whichever comes first
+			if m, ok := mod[key]; ok {
+				if _, isRemoval := m.IsMarkedForRemoval(); !isRemoval {
+					continue
+				}
+			}
+		}
 		mod[key] = e
 	}
 
@@ -347,12 +355,19 @@ func (g *Generator) AdjustOomScoreAdj(score *nri.OptionalInt) {
 
 // AdjustDevices adjusts the (Linux) devices in the OCI Spec.
 func (g *Generator) AdjustDevices(devices []*nri.LinuxDevice) {
+	// apply removals first, so that a device which is both marked for removal
+	// and added ends up added regardless of the order of the two entries
+	for _, d := range devices {
+		if key, marked := d.IsMarkedForRemoval(); marked {
+			g.RemoveDevice(key)
+		}
+	}
 	for _, d := range devices {
 		key, marked := d.IsMarkedForRemoval()
-		g.RemoveDevice(key)
 		if marked {
 			continue
 		}
+		g.RemoveDevice(key)
 		g.AddDevice(d.ToOCI())
 		major, minor, access := &d.Major, &d.Minor, d.AccessString()
 		g.AddLinuxResourcesDevice(true, d.Type, major, minor, access)
@@ -396,10 +411,17 @@ func (g *Generator) AdjustMounts(mounts []*nri.Mount) error {
 		return nil
 	}
 
-	propagation := ""
+	// apply removals first, so that a mount which is both marked for removal
+	// and added ends up added regardless of the order of the two entries
 	for _, m := range mounts {
 		if destination, marked := m.IsMarkedForRemoval(); marked {
 			g.RemoveMount(destination)
+		}
+	}
+
+	propagation := ""
+	for _, m := range mounts {
+		if _, marked := m.IsMarkedForRemoval(); marked {
 			continue
 		}
 
